@@ -31,10 +31,10 @@ def cast_is_value_preserving(frm, to):
 class Roles:
     """role of an operand inside one body (interpreter-like code)"""
 
-    def __init__(self, body, fb, param_roles=None, upvar_roles=None, local_roles=None, overrides=None):
+    def __init__(self, body, fb, param_roles=None, upvar_roles=None, local_roles=None, overrides=None, org=None):
         self.body = body
         self.fb = fb
-        self.org = Origins(body, fb, overrides={l: ("role", r) for l, r in (overrides or {}).items()})
+        self.org = org if org is not None else Origins(body, fb, overrides={l: ("role", r) for l, r in (overrides or {}).items()})
         self.vars = Vars(body)
         self.param_roles = param_roles if param_roles is not None else default_param_roles(body)
         self.upvar_roles = upvar_roles or {}
@@ -155,7 +155,15 @@ class Roles:
         if k == "unwrap":
             return "UNWRAP(%s)" % self.of_origin(o[1])
         if k == "bin":
-            return "(%s %s %s)" % (self.of_origin(o[2]), o[1], self.of_origin(o[3]))
+            a, b = self.of_origin(o[2]), self.of_origin(o[3])
+            if o[1] == "BitXor":
+                if b in ("K0", "K1"):
+                    a, b = b, a
+                if a == "K0":
+                    return b
+                if a == "K1":
+                    return "K0" if b == "K1" else ("NOT(%s)" % b if not b.startswith("NOT(") else b[4:-1])
+            return "(%s %s %s)" % (a, o[1], b)
         if k == "un":
             return "%s(%s)" % (o[1], self.of_origin(o[2]))
         if k == "phi":
